@@ -295,7 +295,7 @@ func checkC10(w *World) {
 			w.check(P, "R10.2", construct, st.Pos(), local, map[bool]string{true: "written through the object under construction", false: "written through an existing cursor (" + describe(fa.X) + "): a node that is already part of the tree changes its identity — positions stop being stable and unique"}[local])
 		})
 	})
-	w.floor(P, "R10.2", 7)
+	w.floorSites(P, "R10.2", 7)
 
 	// R10.3 ownership of namespace cursors
 	n3 := 0
@@ -402,7 +402,7 @@ func checkC10(w *World) {
 			}
 		}
 	}
-	w.floor(P, "R10.4", 5)
+	w.floorSites(P, "R10.4", 5)
 
 	// R10.5 parent = owner, kind -> list
 	n5 := 0
@@ -563,7 +563,7 @@ func checkC10(w *World) {
 			w.check(P, "R10.5", "prefix search range in "+fn.Name(), ta.Pos(), full, fmt.Sprintf("the search for an existing binding of the prefix ranges over the element's whole namespace list: %v (a partial range lets one element own two nodes for the same prefix)", full))
 		})
 	})
-	w.floor(P, "R10.5", 6)
+	w.floorSites(P, "R10.5", 6)
 
 	// R10.6 distinct fields
 	seen := map[int]string{}
@@ -578,7 +578,7 @@ func checkC10(w *World) {
 		w.check(P, "R10.6", "getter for "+r, 0, !dup, fmt.Sprintf("returns field %s; also returned by the getter for %q: %v", sf.St.Field(f).Name(), seen[f], dup))
 		seen[f] = r
 	}
-	w.floor(P, "R10.6", 6)
+	w.floorSites(P, "R10.6", 6)
 
 	// R10.7 end event, root
 	entry := w.member("store", "CreateInMemory")
